@@ -225,3 +225,18 @@ PROPS["C14"] = {
         {"bin": "c14", "quick": {"cases": 1500, "workers": 16, "budget": 200}, "thorough": {"cases": 30000, "workers": 16, "budget": 1500}},
     ],
 }
+
+PROPS["C19"] = {
+    "level": "exploration",
+    "rule": "rapidcheck-generated: 2..8 scripts, each (catalogue entry, channels, mode {read, write, failing open}, op seed, 1..10 ops); one draw in three puts every script on the same codec; "
+            "read ops: typed sf_readf of 0..2000 frames, sf_seek with every whence incl. out-of-range targets, sf_get_string, SFC_CALC_SIGNAL_MAX, norm/scale/clipping settings; write ops: typed sf_writef of 0..3000 frames (all sample styles, arbitrary finite float bit patterns for float codecs), sf_set_string, SFC_UPDATE_HEADER_NOW, SFC_TEST_IEEE_FLOAT_REPLACE on/off, settings; "
+            "merge of the scripts' steps {random, round robin, one after the other (= earlier library use), bursts}, and every merge (<= 300) of two short scripts; "
+            "oracle: per-script transcript (return value, digest of returned data, sf_error(handle) after every call, sf_error(NULL)/sf_strerror(NULL) right after the script's own open, close status) and the final bytes of its backing store equal the transcript of the same script run alone; fixtures, every solo run and every interleaved run happen in a forked child of their own, the parent never opens a file; "
+            "non-trivial = at least two scripts that moved audio data; distinct = hash of the case",
+    "assumptions": BASE_ASSUME + ["single-threaded interleavings only (the property says so)",
+                                  "the clock is pinned, so the time-seeded generator behind ALAC temp-file names starts equal in every child",
+                                  "VOX item counts are kept even (KF-vox-odd-count is a crash that belongs to C09)"],
+    "stages": [
+        {"bin": "c19", "quick": {"cases": 250, "workers": 16, "budget": 250}, "thorough": {"cases": 6000, "workers": 16, "budget": 1800}},
+    ],
+}
